@@ -111,6 +111,14 @@ class Prop(PropBase):
                         cs.append(G.spelling_case("E", [[G.d_true(fg, "".join(comp)), G.g_lit(0x61)]], sweep="true-colour-digit-pairs"))
         for i in range(24):
             cs.append(G.spelling_case("E", [[G.d_charset(i), G.g_lit(0x61)], [G.g_uni("263A")], [G.g_lit(0x62)]], sweep="designators-all"))
+        # ONE element whose own markup is long: 20 to 70 redundant directives before the glyph (its markup passes 255, 256,
+        # 511, 512 bytes), followed by two more elements - a per-element byte count kept in a byte
+        for k in list(range(20, 71)) + [100, 130]:
+            for mk in (lambda j: G.d_true(j % 2 == 0, "%06X" % ((j * 0x010203) & 0xFFFFFF)), lambda j: G.d_low(True, j % 8), lambda j: G.d_high(False, j % 6, (j // 6) % 6, 1),
+                       lambda j: G.d_charset(j % len(G.DESIGNATORS))):
+                ds = [mk(j) for j in range(k)]
+                cs.append(G.spelling_case("E", [ds + [G.g_lit(0x61)], [G.d_low(True, 1), G.g_lit(0x62)], [G.g_lit(0x63)]], sweep="long-element-markup"))
+                cs.append(G.spelling_case("s", [ds + [G.g_lit(0x61)], [G.g_lit(0x62)]], sweep="long-element-markup"))
         # ---- 5. random spellings against Ref.denoteAll
         n_sp = 4000 if not thorough else 60000
         for i in range(n_sp):
